@@ -82,3 +82,48 @@ package rang3
 //@   loop 0 invariant forall p rune, k int :: {in(p, S[k])} 0 <= k && k < m && in(p, S[k]) ==> exists j int :: 0 <= j && j < i && in(p, ranges[j])
 //@   loop 0 invariant forall p rune, j int :: {in(p, ranges[j])} 0 <= j && j < i && in(p, ranges[j]) ==> exists k int :: 0 <= k && k < m && in(p, S[k])
 //@   loop 0 decreases len(ranges) - rangeindex
+//
+// ---- Normalize ---------------------------------------------------------------------
+//
+// The range heap (container/heap underneath) is specified abstractly and its
+// contract is assumed; the bounded harness exercises it. heapWf: every element is a
+// well-formed range. heapMin: the least element w.r.t. Compare.
+//@ ghost func heapWf(rh *rangeHeap) bool
+//@ ghost func heapMin(rh *rangeHeap) Range
+//@ ghost func heapLen(rh *rangeHeap) int
+//
+//@ func newRangeHeap
+//@   trusted
+//@   requires allwf(ranges)
+//@   ensures !isnil(result) && heapWf(result) && heapLen(result) >= 0
+//@   modifies nothing
+//@ func rangeHeap.Len
+//@   trusted
+//@   requires !isnil(rh)
+//@   ensures result == heapLen(rh)
+//@ func rangeHeap.Peek
+//@   trusted
+//@   requires !isnil(rh) && heapLen(rh) > 0
+//@   ensures result == heapMin(rh) && (heapWf(rh) ==> wf(result))
+//@ func rangeHeap.Pop
+//@   trusted
+//@   requires !isnil(rh) && heapLen(rh) > 0
+//@   ensures result == old(heapMin(rh)) && (old(heapWf(rh)) ==> wf(result) && heapWf(rh))
+//@   ensures heapLen(rh) == old(heapLen(rh)) - 1
+//@   ensures heapLen(rh) > 0 ==> Compare(result, heapMin(rh)) <= 0
+//@   modifies fields(rangeHeap), elems(Range), maps(rh.set)
+//@ func rangeHeap.Push
+//@   trusted
+//@   requires !isnil(rh)
+//@   ensures (old(heapWf(rh)) && wf(r)) ==> heapWf(rh)
+//@   ensures heapLen(rh) >= old(heapLen(rh))
+//@   modifies fields(rangeHeap), elems(Range), maps(rh.set)
+//
+// split(o, a, b, c): a, b, c are well-formed pieces that tile o exactly (c may repeat b).
+//@ pure func split(o Range, a Range, b Range, c Range) bool = wf(a) && wf(b) && wf(c) && (forall p rune :: in(p, o) <==> in(p, a) || in(p, b) || in(p, c)) && !(exists p rune :: in(p, a) && in(p, b)) && (c == b || (!(exists p rune :: in(p, a) && in(p, c)) && !(exists p rune :: in(p, b) && in(p, c))))
+//
+//@ func Normalize
+//@   skip frame
+//@   requires allwf(ranges)
+//@   calls onChange(o, a, b, c) requires wf(o) && split(o, a, b, c)
+//@   loop 0 invariant !isnil(rh) && heapWf(rh)
